@@ -20,6 +20,8 @@ CLAIMS = {
          "the series theorem (exp = matrix exponential for all t) is in progress; uniform floating accuracy is measured, not proved"),
  "C03": ("proof", "log: bit-exact correspondence incl. w<0 quaternions, angles near 0, pi, 2pi; oracle checks exp(log X)=X, angle<=pi, log(q)=log(-q), log(exp t)=t with 60 digits.",
          "theorems for exp(log X) = X in progress; accuracy near pi is a recorded finding (KF-C03-2)"),
+ "C04": ("proof", "The derived members are proved, for every record of primitives (hence every group incl. bundles), to be exactly the documented compositions (rplus = X.compose(exp t), lplus, rminus, lminus, between); the alias table (README aliases, operators, tangent-side forms with swapped optional outputs, functions.h) is proved to resolve each alias to its canonical member, and the driver the correspondence runs is proved to answer an alias with the canonical answer; every alias x group x storage x mask is compared bit for bit with the model; oracle checks the compositions and the round trips (X+t)-X = t, X+(Y-X) = Y at 60 digits. SO2: log(exp t) = t over R.",
+         "round-trip theorems for the quaternion groups in progress"),
  "C06": ("proof", "rjac/ljac/inverses/Adj/adj: bit-exact correspondence; oracle compares with phi(-ad) (block matrix exponential), matrix inverse, conjugation and commutator at 60 digits.",
          "algebraic theorems in progress"),
  "C07": ("proof", "Exact Lie-algebra identities proved over every ordered field for SE2 and SO3 (generator tables regenerated from /repo on every run, hat linear, vee∘hat, bracket = commutator, antisymmetry, Jacobi, inner = Frobenius, weights positive definite); all groups: bit-exact correspondence and exact rational-arithmetic oracle on integer inputs, indices -3..DoF+3.",
